@@ -116,7 +116,12 @@ def str_join(sep, items):
     for i, it in enumerate(items):
         if i:
             out.extend(sepc)
-        out.extend(seq_cells(it, T))
+        if isinstance(getattr(it, "value", None), SymStr) and hasattr(it, "type"):
+            it = it.value  # str-like token object with symbolic text (lark.Token is a str subclass)
+        cs = seq_cells(it, T)
+        if cs is None:
+            raise TypeError("sequence item %d: expected str instance, %s found" % (i, type(it).__name__))
+        out.extend(cs)
     r = SymStr(out)
     return unwrap(r)
 
